@@ -94,6 +94,30 @@ class Rec:
         return getattr(self._a, item)
 
 
+def _binop(name):
+    import operator
+    op = getattr(operator, name)
+
+    def f(self, other):
+        other = np.asarray(other) if isinstance(other, Rec) else other      # (recorded as a read of the whole array)
+        return op(np.asarray(self), other)
+
+    def rf(self, other):
+        return op(other, np.asarray(self))
+    return f, rf
+
+
+for _n in ("add", "sub", "mul", "truediv", "floordiv", "mod", "pow", "lt", "le", "gt", "ge", "eq", "ne", "and_", "or_"):
+    _f, _rf = _binop(_n)
+    _d = _n.rstrip("_")
+    setattr(Rec, f"__{_d}__", _f)
+    if _n not in ("lt", "le", "gt", "ge", "eq", "ne"):
+        setattr(Rec, f"__r{_d}__", _rf)
+Rec.__hash__ = object.__hash__
+Rec.__neg__ = lambda self: -np.asarray(self)
+Rec.__abs__ = lambda self: abs(np.asarray(self))
+
+
 class NpProxy:
     """stand-in for the module's np: arrays allocated outside an iteration become shared recording proxies"""
     ALLOC = {"zeros", "ones", "full", "empty", "full_like", "zeros_like", "copy"}
